@@ -2,7 +2,8 @@ package c09
 
 // Registry lists the harness entry points of this package for native replay.
 var Registry = map[string]func([]int64){
-	"HarnessRouteTable":   func(a []int64) { HarnessRouteTable(int(a[0]), int(a[1])) },
-	"HarnessAuth":         func(a []int64) { HarnessAuth(int(a[0]), int(a[1]), int(a[2])) },
-	"HarnessRevokedLater": func(a []int64) { HarnessRevokedLater(int(a[0])) },
+	"HarnessRouteTable":     func(a []int64) { HarnessRouteTable(int(a[0]), int(a[1])) },
+	"HarnessAuth":           func(a []int64) { HarnessAuth(int(a[0]), int(a[1]), int(a[2])) },
+	"HarnessRevokedLater":   func(a []int64) { HarnessRevokedLater(int(a[0])) },
+	"HarnessNearMissTokens": func(a []int64) { HarnessNearMissTokens() },
 }
